@@ -1,6 +1,13 @@
 package main
 
-// C04: GoLite targets (docs/GOLITE_NOTES.md).
+// C04: GoLite targets (docs/GOLITE_NOTES.md; theorems in coq/props/C04_Generated.v, table in docs/audit/C04.md).
+//
+// pkix.ParseDistinguishedName is an oracle, not a target: its body does `attribute.Type = "ST"`
+// (internal/pkix/pkix.go:43), a write through a pointer handed out by go-ldap's ParseDN
+// ("write through a pointer that was not created in this function"). go-ldap itself is outside the
+// subset as well: ldap.ParseDN uses closures (dn.go:257), stripLeadingAndTrailingSpaces calls
+// strings.Trim (dn.go:95), decodeString converts string to []rune (dn.go:110). The byte-level model of
+// both (C04_DN.v) stays tied to the code by correspondence only.
 func init() {
 	Register("C04", []Target{
 		{Pkg: ".../internal/pkix", Func: "IsSubsetDN"},
